@@ -113,6 +113,11 @@ func genStringText(rng *rand.Rand, maxLen int) string {
 	pool := []rune{'a', 'b', ' ', '\'', '"', '\\', '\n', '\r', '\t', 0, 8, 12, 11, '1', 'n', 'x', 'u', 'f', 'é', '中', '静', '￥', '\ue000', '\u2028', '\u0085', 'Z', '0', '7', '~', '\U0001F600'}
 	for i := 0; i < n; i++ {
 		c := pool[rng.Intn(len(pool))]
+		if rng.Intn(25) == 0 {
+			// a stray byte (invalid UTF-8), kept verbatim
+			sb.WriteByte([]byte{0x85, 0xff, 0x80, 0xa0, 0xbf, 0xc3, 0xe2, 0xa8, 0xa9}[rng.Intn(9)])
+			continue
+		}
 		simple := map[rune]string{'\'': "\\'", '"': "\\\"", '\\': "\\\\", '\n': "\\n", '\r': "\\r", '\t': "\\t", 8: "\\b", 12: "\\f", 11: "\\v", 0: "\\0"}
 		forms := []string{}
 		if c != rune(quote) && c != '\\' && !formula.IsLineBreak(c) {
